@@ -3,9 +3,15 @@
   Property theorems only (the process-layer model is CimbaModel/Sim; helper lemmas in CimbaModel/Sim/*).
 -/
 import CimbaModel.Sim.Basic
+import CimbaModel.Sim.S3Hold
+import CimbaModel.Sim.S3PInvCor
+import CimbaModel.Sim.S3All
+import CimbaModel.Sim.S3Built
 
 namespace CimbaModel.Props.C04
-open CimbaModel CimbaModel.Sim CimbaModel.Event
+open CimbaModel CimbaModel.Sim CimbaModel.Event CimbaModel.Generated CimbaModel.KPQ
+open CimbaModel.Sim.S3
+open CimbaModel.HashHeap (HTag HH WF abs init_spec)
 
 /-- a timer (and hence a hold, which is a timer with the success code) armed for `d ≥ 0` is a pending event at
     exactly now + d, addressed to the process and carrying the signal; arming does not move the clock -/
@@ -45,5 +51,462 @@ theorem signal_roundtrip (s : Int) (h : -(2 ^ 63 : Int) ≤ s ∧ s < 2 ^ 63) : 
       have : ((s + 2 ^ 64).toNat : Int) < 2 ^ 63 := by exact_mod_cast hlt
       omega
     · rw [h2]; omega
+
+
+/-! ### ClockInv: nothing but `dispatch` moves the clock, nothing is ever scheduled in the past
+
+`Evo w w'` (Sim/S3Evo.lean) is the footprint every function of the process layer has on the event kernel: the clock is
+the same, the kernel invariant `EvInv` (every issued handle in exactly one of pending / executed / cancelled; nothing
+pending in the past) is preserved, a recorded fault is never cleared, handles only grow, and an event that keeps its
+handle keeps its time, action, subject and signal. -/
+
+/-- `sched` never schedules in the past: either the time is not before the current time and exactly one event is
+    added, or the request is refused — the event queue is left as it is and a fault is recorded -/
+theorem sched_not_in_past (w : World) (act subj : Nat) (sig t pri : Int) :
+    (w.now ≤ t ∧ sched w act subj sig t pri = (pushEv w act subj sig t pri, w.ev.counter + 1)) ∨
+    (t < w.now ∧ ∃ m, sched w act subj sig t pri = (w.fail m, 0)) :=
+  sched_cases w act subj sig t pri
+
+/-- every command, every resumption of a suspended call, the end of a process and a whole activation of a process keep
+    the clock, the kernel invariant, recorded faults and the data of pending events — for all programs, no hypothesis -/
+theorem process_layer_keeps_clock (w : World) (p : Pid) :
+    (∀ c, Evo w (execCmd w p c).1) ∧ (∀ f sig, Evo w (resumeFrame w p f sig).1) ∧
+    (∀ v s, Evo w (finishProc w p v s)) ∧ (∀ fuel, Evo w (runScript fuel w p)) ∧ (∀ sig, Evo w (resumeProc w p sig)) ∧
+    (∀ g, Evo w (signal w g)) ∧ Evo w (cancelAwaiteds w p) :=
+  ⟨fun c => (Evo.refl w).execCmd_fst p c, fun f sig => (Evo.refl w).resumeFrame_fst p f sig,
+   fun v s => (Evo.refl w).finishProc p v s, fun fuel => Evo.runScript fuel (Evo.refl w) p,
+   fun sig => (Evo.refl w).resumeProc p sig, fun g => (Evo.refl w).signal g, (Evo.refl w).cancelAwaiteds p⟩
+
+/-- what `Evo` says, spelled out -/
+theorem evo_means {w w' : World} (h : Evo w w') :
+    w'.now = w.now ∧ (EvInv w.ev → EvInv w'.ev) ∧ (w'.fault = none → w.fault = none) ∧ w.ev.counter ≤ w'.ev.counter ∧
+    (∀ e' ∈ w'.ev.pending, e'.key ≤ w.ev.counter → ∃ e ∈ w.ev.pending, e.key = e'.key ∧ e.d = e'.d ∧ e.item = e'.item) :=
+  ⟨h.wnow, h.evinv, h.fault, h.counter, h.stable⟩
+
+/-- `dispatch` sets the clock to the time of the dispatched event — the (time, −priority, handle)-minimum of the pending
+    set —, which is never earlier than the clock was; afterwards again nothing is pending in the past -/
+theorem dispatch_sets_clock {w w' : World} (hi : EvInv w.ev) (hd : dispatch w = some w') :
+    (∃ e ∈ w.ev.pending, (∀ x ∈ w.ev.pending, heap_order_check x e = false) ∧ w'.now = e.d ∧
+      w'.ev.executed = e.key :: w.ev.executed ∧ w'.ev.current = e.key) ∧
+    w.now ≤ w'.now ∧ EvInv w'.ev ∧ (∀ e ∈ w'.ev.pending, w'.now ≤ e.d) ∧ (w'.fault = none → w.fault = none) := by
+  have h := dispatch_clock hi hd
+  exact ⟨h.ev, h.mono, h.evinv, h.evinv.timeOk, h.fault⟩
+
+/-- `ClockInv` in every reachable state: along any run from a state satisfying the kernel invariant (the initial state
+    does), the invariant holds, the clock and the handle counter never decrease, a fault is never cleared, and a pending
+    event keeps its time, action, subject and signal as long as it is pending -/
+theorem clock_inv_reachable {w w' : World} (h : Reach w w') (hi : EvInv w.ev) :
+    EvInv w'.ev ∧ w.now ≤ w'.now ∧ w.ev.counter ≤ w'.ev.counter ∧ (w'.fault = none → w.fault = none) ∧
+    w'.procs.size = w.procs.size ∧
+    (∀ e' ∈ w'.ev.pending, e'.key ≤ w.ev.counter → ∃ e ∈ w.ev.pending, e.key = e'.key ∧ e.d = e'.d ∧ e.item = e'.item) :=
+  h.clock hi
+
+theorem clock_inv_run (fuel : Nat) (w : World) (hi : EvInv w.ev) :
+    EvInv (runAll fuel w).ev ∧ w.now ≤ (runAll fuel w).now ∧ ((runAll fuel w).fault = none → w.fault = none) ∧
+      w.ev.counter ≤ (runAll fuel w).ev.counter :=
+  runAll_clock fuel w hi
+
+/-! ### hold -/
+
+/-- `hold d` (d ≥ 0) arms exactly one event — fresh handle h, action aTime, addressed to the caller, carrying SUCCESS,
+    due at exactly now + d, with the caller's priority —, registers TIME(h) in the caller's awaits and suspends it in
+    the frame `hold h`; the clock does not move -/
+theorem hold_arms (w : World) (p : Pid) (d : Int) (hd : 0 ≤ d) :
+    execCmd w p (.hold d) = (holdWorld w p d, .blocked) ∧
+    (holdWorld w p d).ev.pending =
+      mkEv (w.ev.counter + 1) aTime (p + 1) sigSuccess (w.now + d) (w.proc p).prio :: w.ev.pending ∧
+    (holdWorld w p d).now = w.now ∧ (holdWorld w p d).ev.counter = w.ev.counter + 1 ∧
+    (p < w.procs.size → ((holdWorld w p d).proc p).blocked = some (.hold (w.ev.counter + 1)) ∧
+      ((holdWorld w p d).proc p).awaits = .time (w.ev.counter + 1) :: (w.proc p).awaits ∧
+      ((holdWorld w p d).proc p).status = (w.proc p).status) :=
+  hold_blocks w p d hd
+
+/-- `hold_exact`: a process executes `hold d` (d ≥ 0) at time t₀.  Whenever, after any number of dispatched events, the
+    event that is dispatched is the one with the handle the hold armed, the clock is exactly t₀ + d, and that event is
+    the (aTime, SUCCESS) wake-up addressed to that process -/
+theorem hold_exact {w0 : World} (p : Pid) {d : Int} (hd : 0 ≤ d) (hi : EvInv w0.ev) {w w' : World}
+    (hreach : Reach (execCmd w0 p (.hold d)).1 w) (hdisp : dispatch w = some w')
+    (hcur : w'.ev.current = w0.ev.counter + 1) :
+    w'.now = w0.now + d ∧
+    ∃ e ∈ w.ev.pending, e.key = w0.ev.counter + 1 ∧ e.d = w0.now + d ∧ e.item.a = aTime ∧ e.item.b = p + 1 ∧
+      e.item.c = encSig sigSuccess ∧ decSig e.item.c = sigSuccess :=
+  S3.hold_exact p hd hi hreach hdisp hcur
+
+/-- the dispatch of a timer event removes TIME(handle) from the awaits of its process and resumes it with the carried
+    value; a suspended hold returns exactly the value it is resumed with: SUCCESS without touching anything, any other
+    value after cancelling its own timer and forgetting it -/
+theorem hold_returns (w : World) (p : Pid) (h : Nat) (t : HTag) (sig : Int) :
+    (t.item.a = aTime → dispatchBody w t =
+      resumeProc (removeAwait w (t.item.b - 1) (.time t.key)).1 (t.item.b - 1) (decSig t.item.c)) ∧
+    (resumeFrame w p (.hold h) sig).2 = .ret sig "" ∧
+    resumeFrame w p (.hold h) sigSuccess = (w, .ret sigSuccess "") ∧
+    (sig ≠ sigSuccess → resumeFrame w p (.hold h) sig = ((removeAwait (timerCancel w p h).1 p (.time h)).1, .ret sig "")) :=
+  ⟨dispatchBody_time w t, resumeFrame_hold_ret w p h sig, resumeFrame_hold_success w p h, resumeFrame_hold_other w p h sig⟩
+
+/-- `dispatch` = take the minimum event, wake its waiters, run its action -/
+theorem dispatch_is (w : World) :
+    dispatch w = match executeNext w.ev with
+      | none => none
+      | some (t, ev') => some (dispatchBody (takeNext w t ev') t) := dispatch_eq w
+
+/-- so a SUCCESS return can only be caused by an event whose signal word is 0 -/
+theorem success_needs_zero_word (s : Int) : decSig (encSig s) = 0 ↔ encSig s = 0 :=
+  decSig_eq_zero (encSig_lt s)
+
+/-! ### never stuck: what a process waits for produces its wake-up at that very moment -/
+
+/-- the end of a process (return, exit, stop): every process registered as waiting for it has a wake-up (aProc) pending at
+    the current time, carrying SUCCESS (normal end) or STOPPED -/
+theorem finish_wakes_waiters (w : World) (p : Pid) (val : Int) (stopped : Bool) (q : Pid)
+    (hq : q ∈ ((finishPre w p stopped).proc p).waiters) :
+    (∃ e ∈ (finishProc w p val stopped).ev.pending, e.item.a = aProc ∧ e.item.b = q + 1 ∧
+      e.item.c = encSig (if stopped then sigStopped else sigSuccess) ∧ e.d = w.now ∧
+      e.i = ((finishPre w p stopped).proc q).prio) ∧
+    (finishProc w p val stopped).now = w.now :=
+  finishProc_wakes w p val stopped q hq
+
+/-- the execution of an event: every process registered as waiting for it has a wake-up (aEvent, SUCCESS) pending at the
+    time of the event before the event's own action runs, and the registrations are gone -/
+theorem event_wakes_waiters (w : World) (t : HTag) (ev' : EvQ) (q : Pid) (hq : q ∈ (w.evWaiters.lookup t.key).getD []) :
+    (∃ e ∈ (takeNext w t ev').ev.pending, e.item.a = aEvent ∧ e.item.b = q + 1 ∧ e.item.c = encSig sigSuccess ∧
+      e.d = ev'.now ∧ e.i = (w.proc q).prio) ∧
+    (takeNext w t ev').evWaiters = w.evWaiters.filter (·.1 ≠ t.key) :=
+  ⟨takeNext_wakes w t ev' q hq, takeNext_evWaiters w t ev'⟩
+
+/-- the cancellation of a scheduled event (whatever else is or is not in the event queue): its waiters have a wake-up
+    (aEvent, CANCELLED) pending at the current time, the event is gone; cancelling an unscheduled handle returns false and
+    changes nothing -/
+theorem cancel_wakes_waiters (w : World) (h : Nat) (hi : EvInv w.ev) :
+    (h ∈ keys w.ev.pending → (evCancel w h).2 = true ∧ h ∉ keys (evCancel w h).1.ev.pending ∧
+      ∀ q ∈ (w.evWaiters.lookup h).getD [],
+        ∃ e ∈ (evCancel w h).1.ev.pending, e.item.a = aEvent ∧ e.item.b = q + 1 ∧ e.item.c = encSig sigCancelled ∧
+          e.d = w.now ∧ e.i = (w.proc q).prio) ∧
+    (h ∉ keys w.ev.pending → evCancel w h = (w, false)) := by
+  constructor
+  · intro hk
+    refine ⟨by rw [evCancel_snd]; simp [hk], ?_, fun q hq => (evCancel_wakes w h hi hk q hq).2.1⟩
+    rw [evCancel_eq]
+    simp only [hk, if_true, pushAll_pending]
+    intro hmem
+    obtain ⟨e, he, hek⟩ := Event.mem_keys.1 hmem
+    rcases List.mem_append.1 he with he | he
+    · have h1 := (wakeEvs_props he).1
+      obtain ⟨e0, he0, hk0⟩ := Event.mem_keys.1 hk
+      have h2 := EvInv.key_le hi he0
+      simp only [cancelEv_counter] at h1
+      omega
+    · exact (mem_remove.1 he).2 hek
+  · intro hk; rw [evCancel_eq]; simp [hk]
+
+/-! ### WaitersInv and NoStaleInv (process / event part): an invariant of every reachable state
+
+`PInvB w` (Sim/S3PInv.lean) bundles, for the state between two dispatched events: the kernel invariant; a process has
+at most one PROCESS and one EVENT awaitable, exactly while it is suspended in `wait_process` / `wait_event` on it; a
+registered waiter (of a process, of an event) awaits it; waiters are registered only with scheduled events; every
+pending process-end / event-done wake-up is owned by the wait its process is suspended in, and there is at most one.
+It is preserved by `dispatch` for all programs, schedules and same-instant coincidences — no `ValidProgram`
+hypothesis —, hence holds in every reachable state (the proof goes through every command, every epilogue,
+`cancel_awaiteds`, the end of a process, and the wake-ups of `dispatch`). -/
+
+/-- the invariant holds before anything is registered … -/
+theorem pinv_init {w : World} (h : InitOk w) : PInvB w := h.pinv
+
+/-- … is preserved by every dispatched event … -/
+theorem pinv_dispatch {w w' : World} (hp : PInvB w) (hd : dispatch w = some w') : PInvB w' := hp.dispatch hd
+
+/-- … hence holds in every reachable state, and after `runAll` -/
+theorem pinv_reachable {w w' : World} (h : Reach w w') (hp : PInvB w) : PInvB w' := hp.reach h
+
+theorem pinv_run (fuel : Nat) (w : World) (hp : PInvB w) : PInvB (runAll fuel w) := hp.runAll fuel w
+
+/-- `WaitersInv` (I_waiters): `q ∈ (proc p).waiters` implies `PROCESS(p) ∈ (proc q).awaits`, `q` is running and suspended
+    in `wait_process p`, and nobody is listed twice; the same for event waiters, which are only registered with
+    scheduled events -/
+theorem waiters_inv {w : World} (h : PInvB w) :
+    (∀ p q, q ∈ (w.proc p).waiters →
+      Await.proc p ∈ (w.proc q).awaits ∧ (w.proc q).blocked = some (.waitProc p) ∧ (w.proc q).status = .running ∧
+      (w.proc p).waiters.Nodup) ∧
+    (∀ k l, (k, l) ∈ w.evWaiters → ∀ q ∈ l,
+      Await.event k ∈ (w.proc q).awaits ∧ (w.proc q).blocked = some (.waitEvent k) ∧ (w.proc q).status = .running ∧
+      k ∈ keys w.ev.pending ∧ l.Nodup) :=
+  ⟨h.waiters, fun k l hm q hq => h.eventWaiters k l hm q hq⟩
+
+/-- conversely a PROCESS / EVENT awaitable is only there while the process is suspended in that wait, and there is at
+    most one of each -/
+theorem awaits_match_frame {w : World} (h : PInvB w) (p : Pid) :
+    (∀ q, Await.proc q ∈ (w.proc p).awaits → (w.proc p).blocked = some (.waitProc q) ∧ procAw w p = [.proc q]) ∧
+    (∀ k, Await.event k ∈ (w.proc p).awaits → (w.proc p).blocked = some (.waitEvent k) ∧ evAw w p = [.event k]) := by
+  constructor
+  · intro q hq
+    refine ⟨(h.proc_unique hq hq).2, ?_⟩
+    rcases h.ap p with h' | ⟨q', _, h'⟩
+    · rw [mem_awaits_proc, h'] at hq; cases hq
+    · rw [mem_awaits_proc, h'] at hq
+      simp only [List.mem_singleton, Await.proc.injEq] at hq
+      rw [h', hq]
+  · intro k hk
+    refine ⟨(h.event_unique hk hk).2, ?_⟩
+    rcases h.ae p with h' | ⟨k', _, h'⟩
+    · rw [mem_awaits_event, h'] at hk; cases hk
+    · rw [mem_awaits_event, h'] at hk
+      simp only [List.mem_singleton, Await.event.injEq] at hk
+      rw [h', hk]
+
+/-- `NoStaleInv`, process-end wake-ups: a pending (aProc) event addressed to `p`, whatever signal it carries, is owned by
+    the `wait_process q` that `p` is suspended in right now; `p` is no longer on `q`'s waiter list; it is the only one -/
+theorem no_stale_process_wakeup {w : World} (h : PInvB w) {e : HTag} (he : e ∈ w.ev.pending) (ha : e.item.a = aProc) :
+    ∃ p q, e.item.b = p + 1 ∧ (w.proc p).blocked = some (.waitProc q) ∧ (w.proc p).status = .running ∧
+      Await.proc q ∈ (w.proc p).awaits ∧ p ∉ (w.proc q).waiters ∧
+      ∀ e' ∈ w.ev.pending, e'.item.a = aProc → e'.item.b = p + 1 → e' = e :=
+  h.procWake_owned he ha
+
+/-- `NoStaleInv`, event-done wake-ups: a pending (aEvent) event addressed to `p` is owned by the `wait_event k` that `p`
+    is suspended in right now; the awaited event is no longer scheduled and `p` is no longer registered with it; it is
+    the only one -/
+theorem no_stale_event_wakeup {w : World} (h : PInvB w) {e : HTag} (he : e ∈ w.ev.pending) (ha : e.item.a = aEvent) :
+    ∃ p k, e.item.b = p + 1 ∧ (w.proc p).blocked = some (.waitEvent k) ∧ (w.proc p).status = .running ∧
+      Await.event k ∈ (w.proc p).awaits ∧ p ∉ evWaitersOf w k ∧ k ∉ keys w.ev.pending ∧
+      ∀ e' ∈ w.ev.pending, e'.item.a = aEvent → e'.item.b = p + 1 → e' = e :=
+  h.eventWake_owned he ha
+
+/-- once `wait_process` / `wait_event` has returned, nothing that belonged to it can resume the process later: a process
+    that is not suspended in such a wait is on no waiter list, in no event's waiter list, has no PROCESS / EVENT awaitable,
+    and no process-end or event-done wake-up addressed to it is pending -/
+theorem returned_wait_leaves_nothing {w : World} (h : PInvB w) (p : Pid)
+    (hf : ∀ q, (w.proc p).blocked ≠ some (.waitProc q)) (hg : ∀ k, (w.proc p).blocked ≠ some (.waitEvent k)) :
+    (∀ x, p ∉ (w.proc x).waiters) ∧ (∀ k l, (k, l) ∈ w.evWaiters → p ∉ l) ∧
+    procAw w p = [] ∧ evAw w p = [] ∧
+    (∀ e ∈ w.ev.pending, e.item.a = aProc ∨ e.item.a = aEvent → e.item.b ≠ p + 1) :=
+  h.returned_clean p hf hg
+
+/-- the epilogues that establish it: `wait_process q` / `wait_event k` continued with any value withdraw the registration
+    or, if the wake-up is already pending, that wake-up -/
+theorem wait_epilogues {fr : Pid → Option Frame} {w : World} (hp : PInv noEx fr w) (p : Pid) (sig : Int) :
+    (∀ q, fr p = some (.waitProc q) →
+      PInv noEx (setFrame fr p none) (resumeFrame (w.modProc p fun y => { y with blocked := none }) p (.waitProc q) sig).1) ∧
+    (∀ k, fr p = some (.waitEvent k) →
+      PInv noEx (setFrame fr p none) (resumeFrame (w.modProc p fun y => { y with blocked := none }) p (.waitEvent k) sig).1) :=
+  ⟨fun _ hfr => hp.resume_waitProc hfr (noEx_not p) sig, fun _ hfr => hp.resume_waitEvent hfr (noEx_not p) sig⟩
+
+/- non-vacuity: a world with two processes and a pending start event satisfies `InitOk`, hence `PInvB` -/
+example : ∃ w : World, InitOk w ∧ w.ev.pending ≠ [] ∧ w.procs.size = 2 := by
+  refine ⟨pushEv { procs := #[{}, {}] } aStart 1 0 0 0, ⟨?_, fun _ => ?_, fun _ => ?_, rfl, ?_, ?_⟩, by simp, rfl⟩
+  · exact pushEv_evinv (w := { procs := #[{}, {}] }) _ _ _ _ _ (by decide) (Event.init_inv 0)
+  · unfold World.proc; simp only [pushEv_procs]
+    rename_i p
+    rcases p with _ | _ | p <;> rfl
+  · unfold World.proc; simp only [pushEv_procs]
+    rename_i p
+    rcases p with _ | _ | p <;> rfl
+  · intro e he
+    simp only [pushEv_pending, List.mem_cons, List.not_mem_nil, or_false] at he
+    subst he; decide
+  · intro e he
+    simp only [pushEv_pending, List.mem_cons, List.not_mem_nil, or_false] at he
+    subst he; decide
+
+/-! ### TimerInv (I_timers): an invariant of every reachable state, for all programs
+
+`TInvB w`: (t1) a TIME(h) awaitable (h ≠ 0) of `p` has its pending (aTime) event with handle h addressed to `p`, or the
+handle has been cancelled — armed timers stay armed until they fire or are cancelled; (t2) every pending (aTime) event
+addressed to `p` is registered as TIME(handle) in `p`'s awaits — so it is cancelled when the process is interrupted,
+preempted, stopped or ends (`cancel_awaiteds` goes through the awaits); handles are at most the counter; each handle
+occurs once. TIME(0) is the dummy a refused arming (duration < 0: the kernel refuses, a fault is recorded) leaves. -/
+
+theorem timer_inv_init {w : World} (h : InitOk w) : TInvB w := h.tinv
+
+theorem timer_inv_dispatch {w w' : World} (hp : TInvB w) (hd : dispatch w = some w') : TInvB w' := hp.dispatch hd
+
+theorem timer_inv_reachable {w w' : World} (h : Reach w w') (hp : TInvB w) : TInvB w' := hp.reach h
+
+theorem timer_inv_run (fuel : Nat) (w : World) (hp : TInvB w) : TInvB (runAll fuel w) := hp.runAll fuel w
+
+/-- what it says -/
+theorem timer_inv_means {w : World} (h : TInvB w) :
+    (∀ p k, k ≠ 0 → Await.time k ∈ (w.proc p).awaits →
+      (∃ e ∈ w.ev.pending, e.key = k ∧ e.item.a = aTime ∧ e.item.b = p + 1) ∨ k ∈ w.ev.cancelled) ∧
+    (∀ e ∈ w.ev.pending, e.item.a = aTime → ∀ p, e.item.b = p + 1 → Await.time e.key ∈ (w.proc p).awaits) ∧
+    (∀ p k, Await.time k ∈ (w.proc p).awaits → k ≤ w.ev.counter) ∧
+    (∀ p, ((timeAw w p).filter (· ≠ .time 0)).Nodup) :=
+  ⟨h.t1, fun e he ha p hb => h.t2 e he ha p hb (noEx_not p), h.tle, h.tnd⟩
+
+/-- the timer primitives keep it: arming (by an existing process), cancelling, clearing, `cancel_awaiteds`, the end of a
+    process; after `timers_clear` / `cancel_awaiteds` no timer of the process is left (t2 with an empty registration) -/
+theorem timer_primitives {ex : Pid → Prop} {w : World} (hp : TInv ex w) (p : Pid) :
+    (∀ d sig, p < w.procs.size → TInv ex (timerAdd w p d sig).1) ∧ (∀ k, TInv ex (timerCancel w p k).1) ∧
+    TInv ex (timersClear w p) ∧ TInv ex (cancelAwaiteds w p) ∧ (∀ v s, TInv ex (finishProc w p v s)) :=
+  ⟨fun d sig hlt => hp.timerAdd_fst p d sig hlt, fun k => hp.timerCancel_fst p k, hp.timersClear p, hp.cancelAwaiteds p,
+   fun v s => hp.finishProc p v s⟩
+
+/- non-vacuity: the initial world satisfies the kernel invariant, so the hypotheses `EvInv w.ev`, `0 ≤ d` are satisfiable,
+   and a hold really arms an event there -/
+example : EvInv ({} : World).ev ∧ (holdWorld {} 0 5).ev.pending.length = 1 := ⟨Event.init_inv 0, rfl⟩
+
+/-! ### the whole of NoStaleInv, I_guard and "exactly one cause": `AllInv`
+
+`AllInv w` = `PInvB` ∧ `TInvB` ∧ `GInvB` ∧ `NRInv` ∧ the static side conditions `SideOk`:
+* `GInvB`: every waiting list is a well-formed hashheap; a queued key is a process that awaits exactly that guard and is
+  suspended in a wait on it; a process awaits at most one guard; a pending grant (aRes, SUCCESS) or condition wake-up
+  (aCond) is addressed to a process that still awaits its guard, is suspended in the wait, is already off the waiting
+  list, and is the only one for that process; a pending timer carrying SUCCESS is the timer of the hold its process is
+  suspended in; interrupts, resumes and preemptions never carry SUCCESS; signal words are < 2⁶⁴.
+* `NRInv`: a process that is not running (created / finished) awaits nothing and has no frame.
+* `SideOk` (hypotheses on the scenario, all static): `CondSep` — the guard of a condition is not the guard of any other
+  object; `ScriptsOk` — the documented precondition that timer / resume / interrupt signals are not SUCCESS
+  (`cmb_process_resume(p, 0)` and `interrupt(p, 0, _)` are refused by the model, so 0 itself is allowed in the script).
+It is preserved by `dispatch` for all programs, through every command, every epilogue, `cancel_awaiteds`, process end,
+dropping of resources, signals incl. forwarded ones, priority changes and same-instant coincidences. -/
+
+theorem all_inv_init {w : World} (h : InitOkG w) (hs : SideOk w) : AllInv w := h.all hs
+
+theorem all_inv_dispatch {w w' : World} (h : AllInv w) (hd : dispatch w = some w') : AllInv w' := h.dispatch hd
+
+theorem all_inv_reachable {w w' : World} (hr : Reach w w') (h : AllInv w) : AllInv w' := h.reach hr
+
+theorem all_inv_run (fuel : Nat) (w : World) (h : AllInv w) : AllInv (runAll fuel w) := h.runAll fuel w
+
+/-- the grant / guard part alone (it needs `PInvB` and `NRInv` of the same state) -/
+theorem guard_inv_dispatch {w w' : World} (hg : GInvB w) (hp : PInvB w) (hnr : NRInv w) (hs : SideOk w)
+    (hd : dispatch w = some w') : GInvB w' := hg.dispatch hp hnr hs hd
+
+/-- created and finished processes are inert, in every reachable state, for all programs (no side condition) -/
+theorem non_running_inert {w w' : World} (hr : Reach w w') (h : NRInv w) (p : Pid) (hs : (w'.proc p).status ≠ .running) :
+    (w'.proc p).awaits = [] ∧ (w'.proc p).blocked = none := NRInv.reach hr h p hs
+
+/-- every waiting list is a well-formed hashheap in every reachable state: the hypothesis of the C06 / C08 / C13
+    theorems about signals always holds -/
+theorem guards_wellformed {w w' : World} (hr : Reach w w') (h : AllInv w) : AllGWF w' := (h.reach hr).g.gw
+
+/-- I_guard -/
+theorem guard_inv_means {w : World} (h : AllInv w) :
+    (∀ g k, queued w g k → ∃ p f, k = p + 1 ∧ p < w.procs.size ∧ Await.guard g ∈ (w.proc p).awaits ∧
+      guardAw w p = [.guard g] ∧ (w.proc p).blocked = some f ∧ FrameOn w f g) ∧
+    (∀ p, guardAw w p = [] ∨ ∃ g f, (w.proc p).blocked = some f ∧ FrameOn w f g ∧ guardAw w p = [.guard g]) :=
+  ⟨fun _ _ hq => h.g.queued_means hq, h.g.one_guard⟩
+
+/-- no stale grants / condition wake-ups -/
+theorem no_stale_grant {w : World} (h : AllInv w) {e : HTag} (he : e ∈ w.ev.pending) (hg : isGrant e) :
+    ∃ p g f, e.item.b = p + 1 ∧ (w.proc p).blocked = some f ∧ FrameOn w f g ∧ guardAw w p = [.guard g] ∧
+      ¬ queued w g (p + 1) ∧ (∀ g', ¬ queued w g' (p + 1)) ∧
+      ∀ e' ∈ w.ev.pending, isGrant e' → e'.item.b = p + 1 → e' = e := h.g.grant_owned he hg
+
+theorem no_stale_cond_wakeup {w : World} (h : AllInv w) {e : HTag} (he : e ∈ w.ev.pending) (ha : e.item.a = aCond) :
+    ∃ c, (w.proc (e.item.b - 1)).blocked = some (.condWait c) := h.g.cond_owned he ha
+
+/-- no stale hold wake-ups: SUCCESS from a timer only to the hold that armed it -/
+theorem no_stale_hold_wakeup {w : World} (h : AllInv w) {e : HTag} (he : e ∈ w.ev.pending) (ha : e.item.a = aTime)
+    (hc : e.item.c = 0) : ∃ p, e.item.b = p + 1 ∧ (w.proc p).blocked = some (.hold e.key) := h.g.hold_owned he ha hc
+
+theorem success_never_by_interrupt {w : World} (h : AllInv w) {e : HTag} (he : e ∈ w.ev.pending) (hc : e.item.c = 0) :
+    e.item.a ≠ aIntr ∧ e.item.a ≠ aResume ∧ e.item.a ≠ aPreempt := h.g.nonzero he hc
+
+/-- NoStaleInv, all kinds: the cause of every pending SUCCESS wake-up is the call its process is suspended in -/
+theorem no_stale_inv {w : World} (h : AllInv w) {e : HTag} (he : e ∈ w.ev.pending) (hc : e.item.c = 0)
+    (hk : isWake e.item.a) {p : Pid} (hb : e.item.b = p + 1) : Cause w e p := h.success_cause he hc hk hb
+
+/-- "for exactly one cause": at most one SUCCESS wake-up is pending for any process -/
+theorem one_cause {w : World} (h : AllInv w) {e1 e2 : HTag} (h1 : e1 ∈ w.ev.pending) (h2 : e2 ∈ w.ev.pending)
+    (hc1 : e1.item.c = 0) (hc2 : e2.item.c = 0) (hk1 : isWake e1.item.a) (hk2 : isWake e2.item.a) {p : Pid}
+    (hb1 : e1.item.b = p + 1) (hb2 : e2.item.b = p + 1) : e1 = e2 := h.one_success_wakeup h1 h2 hc1 hc2 hk1 hk2 hb1 hb2
+
+/-- whatever pending event would resume `p` with SUCCESS (any action on which the dispatcher resumes a process) is the
+    legitimate wake-up of the call `p` is suspended in -/
+theorem success_only_for_own_cause {w : World} (h : AllInv w) {e : HTag} (he : e ∈ w.ev.pending) (hc : e.item.c = 0)
+    (hk : isResuming e.item.a) {p : Pid} (hb : e.item.b = p + 1) : isWake e.item.a ∧ Cause w e p :=
+  h.success_resume he hc hk hb
+
+/-- with `hold_exact`: a hold returns SUCCESS only through the timer it armed, i.e. only at start + duration -/
+theorem hold_success_only_own_timer {w : World} (h : AllInv w) {e : HTag} (he : e ∈ w.ev.pending)
+    (hc : e.item.c = 0) (hk : isResuming e.item.a) {p : Pid} (hb : e.item.b = p + 1) {k : Nat}
+    (hf : (w.proc p).blocked = some (.hold k)) : e.item.a = aTime ∧ e.key = k :=
+  h.hold_success_only_own_timer he hc hk hb hf
+
+/-- end to end: a process executes `hold d` (d ≥ 0) at time t₀. In any later state `w` (satisfying the invariant) in
+    which it is still suspended in that hold, if the event `e` that `dispatch` takes next (`e.key = w'.ev.current`) is
+    addressed to the process, is of a kind on which the dispatcher resumes a process, and carries SUCCESS, then the clock
+    after that dispatch is exactly t₀ + d: a hold returns SUCCESS at start + duration and at no other time -/
+theorem hold_success_exactly_at_deadline {w0 : World} (p : Pid) {d : Int} (hd : 0 ≤ d) (hi : EvInv w0.ev) {w w' : World}
+    (hreach : Reach (execCmd w0 p (.hold d)).1 w) (hinv : AllInv w) (hdisp : dispatch w = some w')
+    (hf : (w.proc p).blocked = some (.hold (w0.ev.counter + 1)))
+    {e : HTag} (he : e ∈ w.ev.pending) (hcur : e.key = w'.ev.current) (hb : e.item.b = p + 1)
+    (hk : isResuming e.item.a) (hc : e.item.c = 0) : w'.now = w0.now + d ∧ e.item.a = aTime := by
+  obtain ⟨ha, hkey⟩ := hinv.hold_success_only_own_timer he hc hk hb hf
+  exact ⟨(S3.hold_exact p hd hi hreach hdisp (by rw [← hcur, hkey])).1, ha⟩
+
+/- non-vacuity: a world with two processes (one with a program that holds and arms a timer), a guard with an empty
+   well-formed waiting list, a condition on that guard and a pending start event satisfies `InitOkG` and `SideOk`,
+   hence `AllInv`, and so does every state of its run -/
+example : ∃ w : World, InitOkG w ∧ SideOk w ∧ w.ev.pending ≠ [] ∧ w.procs.size = 2 ∧ w.guards.size = 1 ∧
+    (w.proc 0).script.size = 2 ∧ ∀ fuel, AllInv (runAll fuel w) := by
+  obtain ⟨s0, _, hwf0, habs0, _⟩ := init_spec (lt := guard_queue_check) 3 (by decide) (by decide)
+  let w0 : World := { procs := #[{ script := #[(.hold 1, "hold"), (.timerAdd 0 1 5, "timer")] }, {}], guards := #[{ q := s0 }], conds := #[0] }
+  have hproc : ∀ p, (w0.proc p).awaits = [] ∧ (w0.proc p).waiters = [] ∧ (w0.proc p).blocked = none := by
+    intro p; unfold World.proc
+    rcases p with _ | _ | p <;> exact ⟨rfl, rfl, rfl⟩
+  have hI : InitOkG (pushEv w0 aStart 1 0 0 0) ∧ SideOk (pushEv w0 aStart 1 0 0 0) := by
+    refine ⟨⟨⟨?_, fun p => (hproc p).1, fun p => (hproc p).2.1, rfl, ?_, ?_⟩, ?_, (by show 2 < 2 ^ 31; decide), ?_,
+      fun p => (hproc p).2.2, ?_⟩, ⟨?_, ?_⟩⟩
+    · exact pushEv_evinv (w := w0) _ _ _ _ _ (Int.le_refl 0) (Event.init_inv 0)
+    · intro e he
+      simp only [pushEv_pending, List.mem_cons] at he
+      rcases he with rfl | he
+      · show aStart ≠ aProc ∧ aStart ≠ aEvent; decide
+      · cases he
+    · intro e he
+      simp only [pushEv_pending, List.mem_cons] at he
+      rcases he with rfl | he
+      · show aStart ≠ aTime; decide
+      · cases he
+    · intro g gd hg
+      rcases g with _ | g
+      · cases hg; exact hwf0
+      · cases hg
+    · intro g k ⟨gd, hg, hk⟩
+      rcases g with _ | g
+      · cases hg; change k ∈ keys (abs s0) at hk; rw [habs0] at hk; cases hk
+      · cases hg
+    · intro e he
+      simp only [pushEv_pending, List.mem_cons] at he
+      rcases he with rfl | he
+      · exact harmless_mkEv (by decide)
+      · cases he
+    · intro c g f hc hon
+      rcases c with _ | c
+      · cases hc
+        cases f <;> first | exact ⟨_, rfl⟩ | (simp [FrameOn, pushEv, w0] at hon)
+      · cases hc
+    · intro p i c t hs
+      rcases p with _ | _ | p
+      · rcases i with _ | _ | i
+        · cases hs; trivial
+        · cases hs; show encSig 5 ≠ 0; decide
+        · cases hs
+      · cases hs
+      · cases hs
+  exact ⟨pushEv w0 aStart 1 0 0 0, hI.1, hI.2, by simp, rfl, rfl, rfl, fun fuel => (hI.1.all hI.2).runAll fuel _⟩
+
+/-! ### the hypotheses hold for every scenario the harness can express
+
+`Built w` (Sim/S3Built): `w` is obtained from the empty world by the construction steps of the scenario loader
+(Drivers/SimMain.lean: `res`, `pool`, `buf`, `oq`, `pq`, `cond` with fresh guards, `proc` with a program, `sub`scriptions,
+autostart events), where every command of every program satisfies the documented precondition `CmdOk`. -/
+
+theorem loader_worlds_satisfy_invariant {w : World} (h : Built w) (hsz : w.procs.size < 2 ^ 31) :
+    InitOkG w ∧ SideOk w ∧ AllInv w ∧ ∀ fuel, AllInv (runAll fuel w) :=
+  ⟨(h.binv.initOk hsz).1, (h.binv.initOk hsz).2, h.allInv hsz, h.run hsz⟩
+
+/- non-vacuity: a scenario with a resource, a condition subscribed to it, and two processes that compete for the resource -/
+example : Built (autostart (autostart (subscribe (addProc (addProc (addCond (addRes {})) 0
+    #[(.acquire 0, "acquire 0"), (.hold 1, "hold 1"), (.release 0, "release 0")]) 1
+    #[(.timerAdd 0 2 7, "timer"), (.acquire 0, "acquire 0"), (.condWait 0 0 0 0, "wait")]) 0 1) 0) 1) := by
+  refine .start 1 (.start 0 (.sub 0 1 (.proc 1 _ (.proc 0 _ (.cond (.res .empty)) ?_) ?_)))
+  · intro i c t h
+    rcases i with _ | _ | _ | i <;> cases h <;> trivial
+  · intro i c t h
+    rcases i with _ | _ | _ | i
+    · cases h; show encSig 7 ≠ 0; decide
+    · cases h; trivial
+    · cases h; trivial
+    · cases h
 
 end CimbaModel.Props.C04
